@@ -240,6 +240,28 @@ def compare_case(ctx, ci, c, meta, a, b, stats):
             else:
                 stats["bit_differs"] += 1
                 ok = fclose(b2f(ra[1]), b2f(rb[1]))
+                if not ok:
+                    # an m-th derivative of a basis function is a sum of terms of size (2k / h)^m (h = the smallest knot gap in
+                    # its support) that largely cancel: its rounding noise is epsilon times THAT, whatever its own size - two
+                    # evaluation orders of the same recursion differ by it on knots 1e-6 apart
+                    try:
+                        if meta["kind"] == "single":
+                            i_, m_ = meta["i"], meta.get("m", 0)
+                        else:
+                            _x, i_, w_ = position(meta, pos)
+                            m_ = 0 if w_.startswith("bsplev") else int(w_.split("m=")[1])
+                        k_, t_ = meta["k"], meta["t"]
+                        sup = t_[i_:i_ + k_ + 1] if 0 <= i_ < len(t_) else t_
+                        gaps = [q - p for p, q in zip(sup, sup[1:]) if q > p and math.isfinite(q - p)] or \
+                               [q - p for p, q in zip(t_, t_[1:]) if q > p and math.isfinite(q - p)]
+                        if gaps and m_ > 0:
+                            bound = 4e-13 * (2.0 * max(k_, 1) / min(gaps)) ** m_
+                            fa_, fb_ = b2f(ra[1]), b2f(rb[1])
+                            if math.isfinite(fa_) and math.isfinite(fb_) and abs(fa_ - fb_) <= bound:
+                                ok = True
+                                stats["within_derivative_noise_bound"] = stats.get("within_derivative_noise_bound", 0) + 1
+                    except (KeyError, ValueError, IndexError, ZeroDivisionError, OverflowError):
+                        pass
             v = b2f(ra[1])
             if v != 0.0:
                 ctx.nontriv((ci, pos))
@@ -279,8 +301,9 @@ def matrix_expected(db, mt, n, tau_idx, ln, rn):
     return rows
 
 
-def matrix_compare(out, exp):
-    """None when the matrix equals the expected entries, else a description"""
+def matrix_compare(out, exp, k=None, t=None, ln=0, rn=0):
+    """None when the matrix equals the expected entries, else a description (derivative rows within the rounding-noise
+    bound 4e-13 (2k / h)^m of their own recursion, h the smallest knot gap in the function's support)"""
     nr, nc = len(exp), len(exp[0]) if exp else 0
     if out[:1] != [0] or len(out) < 3 or out[1] != nr or out[2] != nc or len(out) != 3 + nr * nc:
         return "outcome / shape %s, expected a %d x %d matrix" % (out[:3], nr, nc)
@@ -290,6 +313,12 @@ def matrix_compare(out, exp):
             if e[0] != "ok":
                 return "row %d column %d: the model's basis evaluation aborts" % (j, i)
             if g != e[1] and not (math.isnan(b2f(g)) and math.isnan(b2f(e[1]))) and not fclose(b2f(g), b2f(e[1])):
+                m_ = (rn if j == nr - 1 else ln if j == 0 else 0)
+                if k is not None and t is not None and m_ > 0:
+                    sup = t[i:i + k + 1]
+                    gaps = [q - p for p, q in zip(sup, sup[1:]) if q > p] or [q - p for p, q in zip(t, t[1:]) if q > p]
+                    if gaps and abs(b2f(g) - b2f(e[1])) <= 4e-13 * (2.0 * k / min(gaps)) ** m_:
+                        continue
                 return "row %d column %d: %r, expected %r" % (j, i, b2f(g), b2f(e[1]))
     return None
 
@@ -348,7 +377,7 @@ def matrix_stage(ctx, cases, meta, model):
         at_knot = [x in mt["t"][mt["k"]:len(mt["t"]) - mt["k"]] for x in (tau[0], tau[-1])]
         ctx.count("collocation matrix: end site at an interior knot" if any(at_knot) else "collocation matrix: end sites elsewhere")
         ctx.nontriv(("mat", ci, ln, rn, tuple(tau)))
-        bad = matrix_compare(o, exp)
+        bad = matrix_compare(o, exp, mt["k"], mt["t"], ln, rn)
         if bad:
             ctx.violation("PPSpline::bsplmatrix(tau = %r, left_n = %d, right_n = %d) on k = %d, knots %r does not hold the basis "
                           "derivatives of the proved model: %s" % (tau, ln, rn, mt["k"], mt["t"], bad),
@@ -429,7 +458,7 @@ def replay(ctx, rp):
         db = decode(coq_eval("Run.RunSpline", "runSplineC14", [zcase(g)], ctx.work)[0])
         exp = matrix_expected(db, {"mmax": k + 1, "imax": n}, n, list(range(len(tau))), ln, rn)
         o = run_harness("spline", [matrix_line(k, ln, rn, t, tau)])[0]
-        bad = matrix_compare(o, exp)
+        bad = matrix_compare(o, exp, k, t, ln, rn)
         print("replay bsplmatrix: %s" % (bad or "agrees with the model"))
         ctx.cleanup()
         return 1 if bad else 0
